@@ -136,6 +136,7 @@ def check_one(lines, term, placement, views):
         os.utime(os.path.dirname(full), (1000000000, 1000000000))
     want = expected_menu(reference(lines, dirsel))
     base = None
+    raw_gopher = None
     for view in views:
         r, entries, err = fetch_listing(w, view, reqsel)
         if entries is None:
@@ -147,6 +148,7 @@ def check_one(lines, term, placement, views):
             # host and port fields that the map spells out reach the menu as written (info lines included,
             # which the (info, name, target) view does not compare)
             raw = list(parsers.gopher_menu_lines(r.out))
+            raw_gopher = [(t, name, sel_, host_, int(port_)) for t, name, sel_, host_, port_, plus in raw]
             refs = reference(lines, dirsel)
             if len(raw) == len(refs):
                 for k, ((t, name, sel_, host_, port_, plus), (typ, desc, rsel, rhost, rport)) in enumerate(zip(raw, refs)):
@@ -156,7 +158,16 @@ def check_one(lines, term, placement, views):
                 i = next((j for j in range(min(len(got), len(want))) if got[j] != want[j]), min(len(got), len(want)))
                 bad.append((view, "reference", "gophermap %r (%s, %s): entry #%d is %r, the documented reading gives %r (listing has %d entries, expected %d)" % (
                     lines, term, placement, i, got[i:i + 1], want[i:i + 1], len(got), len(want))))
-        elif base is not None and got != base:
+        if view == "gopherp_dir":
+            # the same fields in the +INFO lines of the attribute listing
+            import re as _re
+
+            infos = _re.findall(rb"(?m)^\+INFO: (.)([^\t\r\n]*)\t([^\t\r\n]*)\t([^\t\r\n]*)\t(\d+)", r.out)
+            infos = [(t, name, sel_, host_, int(port_)) for t, name, sel_, host_, port_ in infos]
+            if raw_gopher is not None and infos != raw_gopher:
+                k = next((j for j in range(min(len(infos), len(raw_gopher))) if infos[j] != raw_gopher[j]), min(len(infos), len(raw_gopher)))
+                bad.append((view, "fields", "gophermap %r (%s, %s): +INFO line #%d of the attribute listing is %r, the Gopher menu line is %r" % (lines, term, placement, k, infos[k:k + 1], raw_gopher[k:k + 1])))
+        if view != "gopher" and base is not None and got != base:
             i = next((j for j in range(min(len(got), len(base))) if got[j] != base[j]), min(len(got), len(base)))
             bad.append((view, "cross-protocol", "gophermap %r (%s, %s): %s entry #%d is %r, gopher shows %r" % (lines, term, placement, view, i, got[i:i + 1], base[i:i + 1])))
     return bad
